@@ -348,6 +348,20 @@ impl<'a> Context<'a> {
         new
     }
 
+    /// Is the current token the first token on its line (comments aside)?
+    fn starts_line(&self) -> bool {
+        let mut i = self.curr;
+        while i > 0 {
+            i -= 1;
+            match self.tokens.get(i) {
+                Some(T::Comment(_)) => continue,
+                Some(T::Newline) => return true,
+                _ => return false,
+            }
+        }
+        true
+    }
+
     fn push_last_statement_location(&self) -> Self {
         Self { last_statement: self.curr, ..*self }
     }
